@@ -118,7 +118,12 @@ impl<'a, I: Iterator<Item = Item>, F: StreamFilter + 'a> CompactionStream<'a, I,
         loop {
             let Some(next) = self.inner.next_if(|kv| {
                 if let Ok(kv) = kv {
-                    let expired = kv.key.user_key == key;
+                    // NOTE: Unless tombstones are evicted (last level), a weak tombstone is never drained
+                    // as part of a tail, because the value it deletes may live outside of this stream;
+                    // it is re-examined as a head instead
+                    let expired = kv.key.user_key == key
+                        && (self.evict_tombstones
+                            || kv.key.value_type != ValueType::WeakTombstone);
 
                     if expired {
                         if let Some(watcher) = &mut self.dropped_callback {
@@ -199,13 +204,24 @@ impl<'a, I: Iterator<Item = Item>, F: StreamFilter + 'a> Iterator for Compaction
                     let drop_weak_tombstone = peeked.key.value_type == ValueType::Value
                         && head.key.value_type == ValueType::WeakTombstone;
 
+                    if drop_weak_tombstone {
+                        // NOTE: Only the weak tombstone and the value it deletes vanish;
+                        // older versions (e.g. an older weak tombstone that still shadows
+                        // a value in a lower level) have to be kept
+                        if let Some(dropped) = self.inner.next() {
+                            let dropped = fail_iter!(dropped);
+
+                            if let Some(watcher) = &mut self.dropped_callback {
+                                watcher.on_dropped(&dropped);
+                            }
+                        }
+
+                        continue;
+                    }
+
                     // NOTE: Next item is expired,
                     // so the tail of this user key is entirely expired, so drain it all
                     fail_iter!(self.drain_key(&head.key.user_key));
-
-                    if drop_weak_tombstone {
-                        continue;
-                    }
                 }
             } else if head.is_tombstone() && self.evict_tombstones {
                 continue;
